@@ -819,6 +819,8 @@ class StmtMixin:
             if c in seen:
                 continue
             seen.add(c)
+            if c not in C.CLASSES:          # a base named by a model that has no model of its own (a real class): nothing reachable through it
+                continue
             for ft in C.CLASSES[c]["fields"].values():
                 todo.extend(names(ft))
             todo.extend(C.CLASSES[c]["bases"])
